@@ -152,21 +152,6 @@ theorem authLoop_ready (chal : Option AuthImpl) (fs : List SFrame) (h : (authLoo
           exact ⟨d', List.mem_cons_of_mem _ hd⟩
     · rename_i d; exact ⟨d, by simp⟩
 
-/-- process death needs an AUTH_CHALLENGE frame -/
-theorem authLoop_crash (chal : Option AuthImpl) (fs : List SFrame) (h : (authLoop chal fs).outcome = .crash) :
-    ∃ d, SFrame.authChallenge d ∈ fs := by
-  induction fs generalizing chal with
-  | nil => cases h
-  | cons f fs ih =>
-    cases f <;> try (cases h)
-    · rename_i d; exact ⟨d, by simp⟩
-    · rcases chal with _ | a
-      · cases h
-      · simp only [authLoop, Trace.pre_outcome, Trace.stop_outcome] at h
-        cases a with
-        | pw p => cases h
-        | custom rs sf => simp only [AuthImpl.success] at h; split at h <;> cases h
-
 /-- an error from `Challenge` is never `ready` / `crash` -/
 theorem challenge_error (a : AuthImpl) (req : List UInt8) (e : Outcome) (h : a.challenge req = .error e) :
     e = .errUnapproved ∨ e = .errAuthenticator := by
@@ -176,6 +161,31 @@ theorem challenge_error (a : AuthImpl) (req : List UInt8) (e : Outcome) (h : a.c
     rcases rs with _ | ⟨r, rs⟩
     · cases h; exact Or.inr rfl
     · simp only [AuthImpl.challenge] at h; split at h <;> cases h; exact Or.inr rfl
+
+/-- the authentication loop never kills the process, whatever the challenger chain and the frames -/
+theorem authLoop_noCrash (chal : Option AuthImpl) (fs : List SFrame) : (authLoop chal fs).outcome ≠ .crash := by
+  induction fs generalizing chal with
+  | nil => intro h; cases h
+  | cons f fs ih =>
+    intro h
+    cases f <;> try (cases h)
+    · rcases chal with _ | a
+      · cases h
+      · simp only [authLoop, Trace.pre_outcome] at h
+        cases hch : a.challenge _ with
+        | error e =>
+          rw [hch] at h; simp at h; subst h
+          rcases challenge_error a _ _ hch with e | e <;> cases e
+        | ok r =>
+          obtain ⟨resp, next⟩ := r
+          rw [hch] at h
+          exact ih next (by simpa using h)
+    · rcases chal with _ | a
+      · cases h
+      · simp only [authLoop, Trace.pre_outcome, Trace.stop_outcome] at h
+        cases a with
+        | pw p => cases h
+        | custom rs sf => simp only [AuthImpl.success] at h; split at h <;> cases h
 
 /-- what a caller-supplied authenticator's challengers hand out, in order -/
 theorem authLoop_custom_tokens (rs : List Round) (sf : Bool) (fs : List SFrame) :
